@@ -136,6 +136,23 @@ func complete(c *harness.C, what string, k cell, shares map[uint16][]byte, vecs 
 					return
 				}
 				c.Outcome(fmt.Sprintf("%s|%v|%v|%v", what, k, vec, sub))
+				// the same set listed in another order (witnesses permuted consistently)
+				if len(sub) >= 2 {
+					for _, perm := range [][]int{reverseIdx(len(sub)), rotateIdx(len(sub))} {
+						var s2 []uint16
+						var w2 []ps.SignatureWitness
+						for _, i := range perm {
+							s2 = append(s2, sub[i])
+							w2 = append(w2, ws[i])
+						}
+						pok2 := pr.ProveKnowledgeOfSignature(&secret, s2, w2)
+						c.Add("evaluations", 1)
+						if err := v.Verify(pok2.Bytes()); err != nil {
+							res = bad("proof-verifies", "c08-proof-rejected:signer-order", fmt.Sprintf("vector %v signers listed as %v: %v", vec, s2, err))
+							return
+						}
+					}
+				}
 			}
 		}
 		res = true
@@ -143,11 +160,44 @@ func complete(c *harness.C, what string, k cell, shares map[uint16][]byte, vecs 
 	return res
 }
 
+func reverseIdx(n int) []int {
+	out := make([]int, n)
+	for i := range out {
+		out[i] = n - 1 - i
+	}
+	return out
+}
+
+func rotateIdx(n int) []int {
+	out := make([]int, n)
+	for i := range out {
+		out[i] = (i + 1) % n
+	}
+	return out
+}
+
 func syncCase(k cell, thorough bool) harness.Case {
 	return harness.Case{ID: "sync/" + k.String(), Run: func(c *harness.C) {
 		c.Exec("[sync] " + k.String())
-		shares, errs := cryptolib.DKG("ps", k.n, k.t, k.l, nil, 30*time.Second)
-		c.Add("executions", 1)
+		reps := 1
+		if k.n >= 5 {
+			reps = 6 // fresh polynomials: the sums of n shares differ in size from run to run
+		}
+		var shares map[uint16][]byte
+		var errs map[uint16]error
+		for i := 0; i < reps; i++ {
+			shares, errs = cryptolib.DKG("ps", k.n, k.t, k.l, nil, 30*time.Second)
+			c.Add("executions", 1)
+			bad := false
+			for _, e := range errs {
+				if e != nil {
+					bad = true
+				}
+			}
+			if bad {
+				break
+			}
+		}
 		for id, e := range errs {
 			if e != nil {
 				c.Violation("dkg-completes", "c08-dkg-fails", fmt.Sprintf("%v: party %d: %v", k, id, e), map[string]interface{}{"cell": k.String()})
@@ -250,14 +300,14 @@ func gen(c *harness.C) []harness.Case {
 				}
 			}
 		}
-		cells = append(cells, cell{5, 3, 1}, cell{5, 3, 2})
+		cells = append(cells, cell{5, 3, 1}, cell{5, 3, 2}, cell{6, 4, 1}, cell{7, 4, 1}, cell{8, 2, 1}, cell{8, 5, 1}, cell{9, 5, 1})
 	} else {
 		for _, nt := range [][2]int{{2, 2}, {3, 2}, {3, 3}} {
 			for l := 1; l <= 3; l++ {
 				cells = append(cells, cell{nt[0], nt[1], l})
 			}
 		}
-		cells = append(cells, cell{4, 3, 1})
+		cells = append(cells, cell{4, 3, 1}, cell{5, 3, 1}, cell{6, 4, 1}, cell{8, 2, 1}, cell{8, 5, 1})
 	}
 	var cases []harness.Case
 	for _, k := range cells {
